@@ -277,20 +277,31 @@ Qed.
 
 (* ---------- the recording module of the harness: spec_ok (model c) ---------- *)
 
-Lemma nth_enc_heads k j : (j < k)%nat -> nth j (enc_heads k) dhead = enc_head (Z.of_nat j + 1).
+Lemma nth_enc_heads sc k j : (j < k)%nat ->
+  nth j (enc_heads sc k) dhead = if sc j then enc_head1 (Z.of_nat j + 1) else enc_head (Z.of_nat j + 1).
 Proof.
   intros H. unfold enc_heads.
   rewrite nth_map_in with (d' := 0%nat) by (rewrite seq_length; exact H).
   rewrite seq_nth by exact H. reflexivity.
 Qed.
 
-Lemma head_ok_enc m fl0 X args :
-  head_ok m X args (apply_head (enc_head m) (all_eval fl0) false (rows X args)) = true.
+Lemma head_ok_enc1 m fl0 X args :
+  head_ok true m X args (apply_head (enc_head1 m) (all_eval fl0) false (rows X args)) = true.
 Proof.
   unfold head_ok, apply_head. rewrite map_length, rows_length, Nat.eqb_refl. cbn [andb].
   apply forallb_seq. intros i Hi.
   rewrite nth_map_in with (d' := (([] : row), ([] : list row))) by (rewrite rows_length; exact Hi).
-  rewrite nth_rows by exact Hi. cbn [fst snd]. unfold enc_head. rewrite all_eval_no_training. apply row_eqb_refl.
+  rewrite nth_rows by exact Hi. cbn [fst snd]. unfold enc_head1, expected_row.
+  rewrite all_eval_no_training. apply row_eqb_refl.
+Qed.
+
+Lemma head_ok_enc m fl0 X args :
+  head_ok false m X args (apply_head (enc_head m) (all_eval fl0) false (rows X args)) = true.
+Proof.
+  unfold head_ok, apply_head. rewrite map_length, rows_length, Nat.eqb_refl. cbn [andb].
+  apply forallb_seq. intros i Hi.
+  rewrite nth_map_in with (d' := (([] : row), ([] : list row))) by (rewrite rows_length; exact Hi).
+  rewrite nth_rows by exact Hi. cbn [fst snd]. unfold enc_head, expected_row. rewrite all_eval_no_training. apply row_eqb_refl.
 Qed.
 
 Lemma flags_expected fl0 b X args adt : flags_ok (expected_trace (all_eval fl0) b X args adt) = true.
@@ -313,7 +324,7 @@ Proof.
 Qed.
 
 Lemma model_in_scope c : in_scope c = true -> args_aligned c = true ->
-  model c = (Ok (expected (c_kind c) (enc_heads (nheads c)) (all_eval (training (c_state c))) (c_X c) (c_args c)),
+  model c = (Ok (expected (c_kind c) (enc_heads (is_scalar c) (nheads c)) (all_eval (training (c_state c))) (c_X c) (c_args c)),
              expected_trace (all_eval (training (c_state c))) (c_b c) (c_X c) (c_args c) (c_adt c)).
 Proof.
   intros Hs Ha. apply scope_facts in Hs as [Hb HX]. unfold model.
@@ -327,20 +338,21 @@ Proof.
   destruct (args_aligned c) eqn:Ha.
   - rewrite model_in_scope by auto. cbn [fst snd]. unfold expected, nheads.
     destruct (c_kind c) eqn:Hk.
-    + change (nth 0 (enc_heads 1) dhead) with (enc_head 1).
-      rewrite head_ok_enc, flags_expected, dtypes_expected. reflexivity.
+    + rewrite (nth_enc_heads (is_scalar c) 1 0) by lia. change (Z.of_nat 0 + 1) with 1.
+      destruct (is_scalar c 0); [rewrite head_ok_enc1 | rewrite head_ok_enc];
+        rewrite flags_expected, dtypes_expected; reflexivity.
     + rewrite map_length. unfold enc_heads at 1. rewrite map_length, seq_length, Nat.eqb_refl.
       rewrite flags_expected, dtypes_expected. cbn [andb]. rewrite !andb_true_r.
       apply forallb_seq. intros j Hj.
       rewrite nth_map_in with (d' := dhead)
         by (unfold enc_heads; rewrite map_length, seq_length; exact Hj).
-      rewrite nth_enc_heads by exact Hj. apply head_ok_enc.
+      rewrite nth_enc_heads by exact Hj. destruct (is_scalar c j); [apply head_ok_enc1 | apply head_ok_enc].
     + rewrite map_length. unfold enc_heads at 1. rewrite map_length, seq_length, Nat.eqb_refl.
       rewrite flags_expected, dtypes_expected. cbn [andb]. rewrite !andb_true_r.
       apply forallb_seq. intros j Hj.
       rewrite nth_map_in with (d' := dhead)
         by (unfold enc_heads; rewrite map_length, seq_length; exact Hj).
-      rewrite nth_enc_heads by exact Hj. apply head_ok_enc.
+      rewrite nth_enc_heads by exact Hj. destruct (is_scalar c j); [apply head_ok_enc1 | apply head_ok_enc].
   - unfold model. rewrite predict_rejects_misaligned by exact Ha. reflexivity.
 Qed.
 
